@@ -314,7 +314,7 @@ class Ctx:
         shutil.rmtree(self.scratch, ignore_errors=True)
 
 
-def validate_trace(ctx, module, cfg_text, trace_file, events, is_new, files=None, max_rounds=60, max_fail=6, timeout=1200,
+def validate_trace(ctx, module, cfg_text, trace_file, events, is_new, files=None, max_rounds=60, max_fail=12, timeout=1200,
                    layerp=("LayerP",), dfs=False):
     """Validate concatenated traces with TLC.  The trace spec must keep `bad` (line of the first Layer-P failure, 0 if
     none) and `why` (string) variables and print drift as <<"VP:drift", l>>.  A trace whose Layer-P invariant fails is
@@ -344,7 +344,7 @@ def validate_trace(ctx, module, cfg_text, trace_file, events, is_new, files=None
         why = w[-1] if w else ""
         start = max(i for i in range(bad) if is_new(remaining[i]))
         end = next((i for i in range(start + 1, len(remaining)) if is_new(remaining[i])), len(remaining))
-        failures.append({"header": remaining[start], "events": remaining[start + 1:end], "bad_index": bad - 1 - start, "why": why})
+        failures.append({"header": remaining[start], "events": remaining[start + 1:end], "bad_index": bad - 2 - start, "why": why})
         remaining = remaining[:start] + remaining[end:]
         if len(failures) >= max_fail:
             ctx.notes["trace_validation_truncated"] = "stopped after %d failing traces; %d events left unvalidated" % (len(failures), len(remaining))
